@@ -26,12 +26,19 @@ pub fn run(args: &Args) -> i32 {
             json!({"name": name, "parses": z.is_ok(), "display": z.map(|z| z.to_string()).unwrap_or_default()})
         })
         .collect();
+    // `Default::default()` of the structs that carry a struct-level `#[serde(default)]`
+    let defaults = format!(
+        "{{\"Model\":{},\"PropsOverrides\":{}}}",
+        serde_json::to_string(&bemodel::Model::default()).unwrap(),
+        serde_json::to_string(&bemodel::PropsOverrides::default()).unwrap()
+    );
     let out = format!(
-        "{{\"monthly\":{},\"july\":{{{}}},\"meta\":{{{}}},\"zones\":{}}}",
+        "{{\"monthly\":{},\"july\":{{{}}},\"meta\":{{{}}},\"zones\":{},\"defaults\":{}}}",
         monthly,
         july.join(","),
         meta.join(","),
-        serde_json::to_string(&zones).unwrap()
+        serde_json::to_string(&zones).unwrap(),
+        defaults
     );
     std::fs::write(format!("{}/tables.json", args.out), out).unwrap();
     0
